@@ -8,7 +8,7 @@ P="$(cd "$1" && pwd)"; shift
 S=/var/tmp/seedrun.$$
 mkdir -p "$S"
 git -C /repo worktree add -q --detach "$S/repo" HEAD || exit 2
-if ! git -C "$S/repo" apply "$P/patch.diff"; then echo "patch does not apply"; git -C /repo worktree remove --force "$S/repo"; rm -rf "$S"; exit 2; fi
+if ! git -C "$S/repo" apply "$P/patch.diff" 2>/dev/null && ! git -C "$S/repo" apply --3way "$P/patch.diff" 2>/dev/null; then echo "patch does not apply to /repo HEAD (the code changed since the seed was made: re-base the patch)"; git -C /repo worktree remove --force "$S/repo"; rm -rf "$S"; exit 2; fi
 mkdir -p "$S/verif"
 # committed state of /verif at ${SEED_VERIF_REV:-HEAD} (builders' uncommitted work in progress is left out) + the compiled .lake as a cache
 git -C /verif archive "${SEED_VERIF_REV:-HEAD}" | tar -x -C "$S/verif"
